@@ -258,3 +258,39 @@ Section Generic.
     intros (p & Hp & Hs & _) F. rewrite Hp in F. destruct p; simpl in F; [lia|discriminate].
   Qed.
 End Generic.
+
+(* ------------------------------------------------------------------ a connection served alone by the same server *)
+Section Alone.
+  Variable St : Type.
+  Variable fin lost : St -> bool.
+  Variable cstep : St -> St.
+  Notation run := (run fin lost cstep).
+  Notation solo := (solo fin cstep).
+
+  Lemma run_snoc l i (g : sys St) : run (l ++ [i]) g = sys_step fin lost cstep (run l g) i.
+  Proof. unfold M_ConnIso.run. rewrite fold_left_app. reflexivity. Qed.
+
+  (* one client, nobody else: after connect + acquire, every further step of the schedule is a step of its machine *)
+  Lemma alone_run maxc s0 : has_permit maxc = true -> forall k,
+    exists c p h, run (repeat 0 (2 + k)) (init maxc [s0]) = {| permits := p; conns := [c]; hw := h |}
+                  /\ st c = solo k s0
+                  /\ (ph c = Serving \/ ph c = Zombie \/ (ph c = Done /\ fin (st c) = true)).
+  Proof.
+    intros Hp k; induction k as [|k IH].
+    - simpl. unfold M_ConnIso.sys_step at 2. simpl. unfold M_ConnIso.sys_step. simpl.
+      unfold M_ConnIso.conn_step. simpl. rewrite Hp. simpl. eexists _, _, _. split; [reflexivity|]. simpl. auto.
+    - destruct IH as (c & p & h & Hr & Hs & Hph).
+      assert (R : forall n, repeat 0 (S n) = repeat 0 n ++ [0]) by (intro n; simpl; apply repeat_cons).
+      pose proof (solo_S St fin cstep k s0) as HS. cbn zeta in HS. rewrite <- Hs in HS.
+      set (T := solo (S k) s0) in *. clearbody T.
+      replace (2 + S k) with (S (2 + k)) by lia. rewrite (R (2 + k)).
+      rewrite run_snoc, Hr. unfold M_ConnIso.sys_step. simpl.
+      unfold M_ConnIso.conn_step.
+      destruct Hph as [P|[P|[P F]]]; rewrite P.
+      + destruct (fin (st c)) eqn:F; simpl.
+        * eexists _, _, _. split; [reflexivity|]. cbn [st ph]. rewrite HS, ?F. auto.
+        * destruct (lost (cstep (st c))); simpl; eexists _, _, _; (split; [reflexivity|]); cbn [st ph]; rewrite HS, ?F; auto.
+      + destruct (fin (st c)) eqn:F; simpl; eexists _, _, _; (split; [reflexivity|]); cbn [st ph]; rewrite HS, ?F; auto.
+      + rewrite F in HS. simpl. eexists _, _, _. split; [reflexivity|]. cbn [st ph]. rewrite P, HS. auto.
+  Qed.
+End Alone.
